@@ -502,6 +502,7 @@ func (r *Run) tryReplay(v *Result, rf *ReplayFile) {
 		}
 		out, rerr := r.runReplay(src)
 		rf.TestSource = src
+		rf.SpecSource = r.W.GenSrc
 		rf.TestOutput = truncate(out, 6000)
 		if rerr != nil {
 			rf.Note += a.name + ": replay did not run: " + rerr.Error() + "; "
